@@ -410,9 +410,65 @@ func c18GenSeq(t *testing.T, r *vfh.Rand, n int, raBias int) []c18Event {
 	pfxs := c18GenPfxs(r)
 	evs := make([]c18Event, 0, n)
 	for i := 0; i < n; i++ {
+		// one event in three (after the first) is the NEXT RA of a router seen before: the earlier RA
+		// with one thing changed — a prefix's on-link or autonomous flag, a lifetime, the M or O
+		// flag, a prefix added or withdrawn — or nothing changed at all.  Every RA is described on
+		// its own, whatever the router sent before.
+		if i > 0 && r.Chance(1, 3) {
+			var prevs []int
+			for j, e := range evs {
+				if _, ok := e.msg.(*ndp.RouterAdvertisement); ok {
+					prevs = append(prevs, j)
+				}
+			}
+			if len(prevs) > 0 {
+				p := evs[vfh.Pick(r, prevs)]
+				evs = append(evs, c18Event{host: p.host, now: c18GenNow(r), msg: c18Derive(r, p.msg.(*ndp.RouterAdvertisement), pfxs)})
+				continue
+			}
+		}
 		evs = append(evs, c18Event{host: vfh.Pick(r, hosts), now: c18GenNow(r), msg: c18GenMsg(t, r, pfxs, raBias)})
 	}
 	return evs
+}
+
+// c18Derive: a copy of ra with one thing changed (or none).
+func c18Derive(r *vfh.Rand, ra *ndp.RouterAdvertisement, pfxs []c18Pfx) *ndp.RouterAdvertisement {
+	out := *ra
+	out.Options = nil
+	var pis []int
+	for i, o := range ra.Options {
+		if pi, ok := o.(*ndp.PrefixInformation); ok {
+			cp := *pi
+			out.Options = append(out.Options, &cp)
+			pis = append(pis, i)
+		} else {
+			out.Options = append(out.Options, o)
+		}
+	}
+	switch k := r.Intn(8); {
+	case k == 0 && len(pis) > 0:
+		pi := out.Options[vfh.Pick(r, pis)].(*ndp.PrefixInformation)
+		pi.OnLink = !pi.OnLink
+	case k == 1 && len(pis) > 0:
+		pi := out.Options[vfh.Pick(r, pis)].(*ndp.PrefixInformation)
+		pi.AutonomousAddressConfiguration = !pi.AutonomousAddressConfiguration
+	case k == 2 && len(pis) > 0:
+		pi := out.Options[vfh.Pick(r, pis)].(*ndp.PrefixInformation)
+		pi.ValidLifetime += time.Hour
+	case k == 3:
+		out.ManagedConfiguration = !out.ManagedConfiguration
+	case k == 4:
+		out.OtherConfiguration = !out.OtherConfiguration
+	case k == 5 && len(pfxs) > 0: // a prefix added (all else equal)
+		p := vfh.Pick(r, pfxs)
+		out.Options = append(out.Options, &ndp.PrefixInformation{PrefixLength: p.len, OnLink: r.Bool(), AutonomousAddressConfiguration: r.Bool(),
+			ValidLifetime: 2 * time.Hour, PreferredLifetime: time.Hour, Prefix: p.addr})
+	case k == 6 && len(pis) > 0: // a prefix withdrawn
+		i := vfh.Pick(r, pis)
+		out.Options = append(append([]ndp.Option(nil), out.Options[:i]...), out.Options[i+1:]...)
+	}
+	return &out
 }
 
 // c18Case renders the case line and builds the reverse label tables.  Only the zone-free
